@@ -110,6 +110,12 @@ pub struct SavedVmState {
     pub new_target: JsValue,
     /// Trampoline call stack (for nested function calls)
     pub trampoline_stack: Vec<SavedTrampolineFrame>,
+    /// `this` of the suspended code
+    pub this_value: JsValue,
+    /// Outer environments of the block scopes the suspended code is inside of
+    pub saved_env_stack: Vec<Gc<JsObject>>,
+    /// Completion (return/throw/break/continue) waiting for an enclosing `finally` to finish
+    pub pending_completion: Option<PendingCompletion>,
 }
 
 /// A call frame in the VM
@@ -158,9 +164,36 @@ pub enum PendingCompletion {
     Continue { target: usize, try_depth: u8 },
 }
 
+impl PendingCompletion {
+    /// Copy for a saved VM state. The copy carries no guard of its own: `keep_alive` (the
+    /// guard of the saved state, or of the VM rebuilt from it) roots the value instead.
+    fn duplicate(&self, keep_alive: &Guard<JsObject>) -> Self {
+        let copy_value = |guarded: &Guarded| {
+            if let JsValue::Object(obj) = &guarded.value {
+                keep_alive.guard(obj.cheap_clone());
+            }
+            Guarded {
+                value: guarded.value.clone(),
+                guard: None,
+            }
+        };
+        match self {
+            PendingCompletion::Return(g) => PendingCompletion::Return(copy_value(g)),
+            PendingCompletion::Throw(g) => PendingCompletion::Throw(copy_value(g)),
+            PendingCompletion::Break { target, try_depth } => PendingCompletion::Break {
+                target: *target,
+                try_depth: *try_depth,
+            },
+            PendingCompletion::Continue { target, try_depth } => PendingCompletion::Continue {
+                target: *target,
+                try_depth: *try_depth,
+            },
+        }
+    }
+}
+
 /// A saved trampoline frame for suspension (Clone-able version without Guard)
 /// The SavedVmState.guard keeps all objects alive during suspension
-#[derive(Clone)]
 pub struct SavedTrampolineFrame {
     /// Saved instruction pointer
     pub ip: usize,
@@ -190,6 +223,8 @@ pub struct SavedTrampolineFrame {
     pub construct_new_obj: Option<Gc<JsObject>>,
     /// For async function calls: wrap result in a Promise when returning
     pub is_async: bool,
+    /// Completion waiting for an enclosing `finally` of this frame to finish
+    pub pending_completion: Option<PendingCompletion>,
 }
 
 /// A saved VM frame for the trampoline call stack
@@ -1857,9 +1892,18 @@ impl BytecodeVM {
                     saved_interp_env: frame.saved_interp_env.cheap_clone(),
                     construct_new_obj: frame.construct_new_obj.clone(),
                     is_async: frame.is_async,
+                    pending_completion: frame
+                        .pending_completion
+                        .as_ref()
+                        .map(|pending| pending.duplicate(&guard)),
                 }
             })
             .collect();
+
+        let pending_completion = self
+            .pending_completion
+            .as_ref()
+            .map(|pending| pending.duplicate(&guard));
 
         SavedVmState {
             frames: self.call_stack.clone(),
@@ -1867,10 +1911,14 @@ impl BytecodeVM {
             chunk: self.chunk.clone(),
             registers: self.registers.clone(),
             try_stack: self.try_stack.clone(),
-            guard: Some(guard),
             arguments: self.arguments.clone(),
             new_target: self.new_target.clone(),
             trampoline_stack: saved_trampoline_stack,
+            // Guarded above
+            this_value: self.this_value.clone(),
+            saved_env_stack: self.saved_env_stack.clone(),
+            pending_completion,
+            guard: Some(guard),
         }
     }
 
@@ -1878,13 +1926,17 @@ impl BytecodeVM {
     /// The guard must protect all objects in the saved registers
     pub fn from_saved_state(
         state: SavedVmState,
-        this_value: JsValue,
         guard: Guard<JsObject>,
         heap: &crate::gc::Heap<JsObject>,
     ) -> Self {
         // Guard this_value if it's an object
-        if let JsValue::Object(obj) = &this_value {
+        if let JsValue::Object(obj) = &state.this_value {
             guard.guard(obj.cheap_clone());
+        }
+
+        // Guard the outer environments of the block scopes the suspended code was inside of
+        for env in &state.saved_env_stack {
+            guard.guard(env.cheap_clone());
         }
 
         // Guard all objects in the restored registers
@@ -1944,7 +1996,10 @@ impl BytecodeVM {
                     arguments: saved.arguments,
                     new_target: saved.new_target,
                     current_constructor: saved.current_constructor,
-                    pending_completion: None, // Lost during save
+                    pending_completion: saved
+                        .pending_completion
+                        .as_ref()
+                        .map(|pending| pending.duplicate(&frame_guard)),
                     return_register: saved.return_register,
                     saved_interp_env: saved.saved_interp_env,
                     register_guard: frame_guard,
@@ -1954,6 +2009,11 @@ impl BytecodeVM {
             })
             .collect();
 
+        let pending_completion = state
+            .pending_completion
+            .as_ref()
+            .map(|pending| pending.duplicate(&guard));
+
         Self {
             ip: state.ip,
             chunk: state.chunk,
@@ -1961,13 +2021,13 @@ impl BytecodeVM {
             register_guard: guard,
             call_stack: state.frames,
             try_stack: state.try_stack,
-            this_value,
+            this_value: state.this_value,
             exception_value: None,
-            saved_env_stack: Vec::new(),
+            saved_env_stack: state.saved_env_stack,
             arguments: state.arguments,
             new_target: state.new_target,
             current_constructor: None,
-            pending_completion: None,
+            pending_completion,
             trampoline_stack,
             register_pool: Vec::new(),
             arguments_pool: Vec::new(),
